@@ -42,11 +42,11 @@ CONF = {
                 big=[("big", 80, 1000), ("kinds3", 300, 3000)], enum=True),
     "C05": dict(prefixes=("C05.",), builds=("pure",),
                 model=[("kinds3", 500, 5000), ("faults", 300, 3000), ("sync", 250, 2500), ("spawn", 200, 2000),
-                       ("syncfaults", 150, 2000), ("throw", 250, 2500), ("ival", 300, 3000), ("overflowbatch", 250, 2500)],
+                       ("syncfaults", 150, 2000), ("throw", 250, 2500), ("ival", 300, 3000), ("overflowbatch", 250, 2500), ("cancel", 300, 3000)],
                 monitor_only=[("nestflush", 500, 5000)],
                 big=[("kinds3", 400, 4000), ("big", 40, 600)], enum=True),
     "C06": dict(prefixes=("C06.",), builds=("pure",),
-                model=[("ctx", 400, 4000), ("ctxsync", 300, 3000), ("ctxfaults", 300, 3000), ("nonasync", 300, 3000),
+                model=[("ctx", 400, 4000), ("ctxsync", 300, 3000), ("ctxfaults", 300, 3000), ("nonasync", 300, 3000), ("kill", 400, 4000),
                        ("override", 150, 1500)],
                 big=[("ctxsync", 300, 3000), ("nonasync", 200, 2000)]),
     "C07": dict(prefixes=("C07.",), builds=("pure",),
